@@ -99,6 +99,21 @@ HexahedralMeshTopologyKernel::add_cell(std::vector<HalfFaceHandle> _halffaces, b
         // Assume right ordering at the user's risk
         return TopologyKernel::add_cell(std::move(_halffaces), _topologyCheck);
     }
+
+    // Six quads that pass the checks below need not be a hexahedron (a cell pinched in a
+    // vertex, two separate closed components): a hexahedron has exactly eight distinct vertices.
+    {
+        std::set<VertexHandle> vertices;
+        for(const auto &hfh: _halffaces) {
+            for(const auto &heh: TopologyKernel::halfface(hfh).halfedges()) {
+                vertices.insert(TopologyKernel::halfedge(heh).from_vertex());
+            }
+        }
+        if(vertices.size() != 8) {
+            return TopologyKernel::InvalidCellHandle;
+        }
+    }
+
     if(check_halfface_ordering(_halffaces)) {
         // The order is okay :)
         return TopologyKernel::add_cell(std::move(_halffaces), _topologyCheck);
@@ -281,6 +296,14 @@ HexahedralMeshTopologyKernel::add_cell(const std::vector<VertexHandle>& _vertice
 
     if(_vertices.size() != 8) {
         return CellHandle(-1);
+    }
+
+    if(_topologyCheck) {
+        // a hexahedron has eight distinct vertices
+        std::set<VertexHandle> distinct(_vertices.begin(), _vertices.end());
+        if(distinct.size() != 8) {
+            return CellHandle(-1);
+        }
     }
 
     HalfFaceHandle hf0, hf1, hf2, hf3, hf4, hf5;
